@@ -42,5 +42,11 @@ CHECKS = {
   "text": "On the real plain and external-interference classes, with every matrix entry, path-loss value, noise draw, filter entry and data symbol symbolic: after each step of every mutator sequence of length <=3 all views (H, big_H, get_Hkl, get_Hk, big_H_no_ext_int) equal sqrt(current path loss) x raw for the current antenna split, entry by entry; from any state whose caches are empty or coherent every mutator re-establishes coherence (inductive, any history length); corrupt_data equals W^H(big_H x + n) with n the reported last noise, split by antenna counts, for noise on/off x filter on/off. Structure is configuration-concrete (K=2, unequal splits incl. equal totals).",
   "note": "K and antenna splits fixed per configuration (values fully symbolic); ideal reals, sqrt uninterpreted; random draws uninterpreted; larger K and random interleavings only in the bounded native check.",
  },
+ "C11": {
+  "category": "proof",
+  "technique": "contract-based deductive verification: real SINR/covariance methods executed on fully symbolic complex precoders/filters/channels; results compared with a first-principles spec as exact polynomial identities (ring normal form, z3 for the rest); bounded native random configurations",
+  "text": "For plain, external-interference and joint-processing channels and for the IA solver (K 2..3, unequal antennas, 1..2 streams, symbolic path loss, noise None/0/symbolic, interference power, also after re-randomizing and after a power change through the setter) the engine records the exact numerator and denominator of every reported SINR and proves them equal to |u^H H_kk f|^2 and to the power of all other streams plus external interference plus filtered noise. Scale invariance, Q_k = sum of interfering link covariances, Hermitian, v^H Q v a sum of squares with non-negative weights (PSD), solver/channel agreement, sum capacity and dB forms are discharged.",
+  "note": "Structure configuration-concrete (values symbolic); ideal reals; H taken from the channel object (its coherence is C08); positivity of denominators is a requires; larger sizes only in the bounded native check.",
+ },
 }
 NOT_APPLICABLE = {}
